@@ -31,6 +31,7 @@ struct PluginSpec {
   int size_threshold{50};
   int growing_size_percentile{80};
   long double min_growth_ratio{1.25L};
+  int64_t ratio_num{0}, ratio_den{0}; // the configured ratio as an exact fraction, when the case knows it
   // kill_by_swap_usage
   int64_t swap_threshold{1}; // bytes, exact
   bool biased{false};
@@ -110,7 +111,10 @@ inline std::map<std::string, Key> keysOf(const RankInput& in, const std::vector<
       long double avg = (t != in.temporal.end() && t->second.have_avg) ? std::floor(t->second.avg) : 0;
       if (avg > 0) ratio = usage / avg;
       bool growthEl = ratio >= s.min_growth_ratio && eff >= T;
-      if (std::fabs(ratio - s.min_growth_ratio) <= 2e-6L * std::max(1.0L, ratio)) k.uncertain = true;
+      // usage / average equal to the configured fraction, exactly: ">= min_growth_ratio" holds
+      bool exactRatio = s.ratio_den > 0 && avg > 0 && usage * (long double)s.ratio_den == avg * (long double)s.ratio_num;
+      if (exactRatio) growthEl = eff >= T;
+      if (std::fabs(ratio - s.min_growth_ratio) <= 2e-6L * std::max(1.0L, ratio) && !exactRatio) k.uncertain = true;
       if (eff != T && std::fabs(eff - T) <= effTol) k.uncertain = true;
       if (avg > 0 && avg < 4096) k.uncertain = true; // truncation of tiny averages
       k.k = {sizeEl ? eff : 0.0L, growthEl ? ratio : 0.0L, eff};
